@@ -81,7 +81,7 @@ pub fn check(c: &Case, rec: &mut Rec) -> Result<(), String> {
                 r.bc = *port;
                 r.af = (*val as u16) << 8;
                 mach::set_regs(&mut e, &r);
-                mach::single_step(&mut e)?;
+                mach::step_over(&mut e, 2)?;
                 if is_paging_only_port(*port) {
                     let was_locked = m.locked;
                     if m.paging_write(*val) {
@@ -100,7 +100,7 @@ pub fn check(c: &Case, rec: &mut Rec) -> Result<(), String> {
                 r.hl = *addr;
                 r.af = (*val as u16) << 8;
                 mach::set_regs(&mut e, &r);
-                mach::single_step(&mut e)?;
+                mach::step_over(&mut e, 1)?;
                 if let Pg::Rom(_) = m.page_at(*addr) {
                     rec.class("rom-write-attempt");
                 }
@@ -111,7 +111,7 @@ pub fn check(c: &Case, rec: &mut Rec) -> Result<(), String> {
                 mach::poke_bytes(&mut e, &mut m, STUB, &[0x22, lo, hi]);
                 r.hl = *val;
                 mach::set_regs(&mut e, &r);
-                mach::single_step(&mut e)?;
+                mach::step_over(&mut e, 3)?;
                 m.write(*addr, *val as u8);
                 m.write(addr.wrapping_add(1), (*val >> 8) as u8);
                 rec.class("word-write");
@@ -121,7 +121,7 @@ pub fn check(c: &Case, rec: &mut Rec) -> Result<(), String> {
                 r.sp = *sp;
                 r.bc = *val;
                 mach::set_regs(&mut e, &r);
-                mach::single_step(&mut e)?;
+                mach::step_over(&mut e, 1)?;
                 m.write(sp.wrapping_sub(1), (*val >> 8) as u8);
                 m.write(sp.wrapping_sub(2), *val as u8);
             }
@@ -130,7 +130,7 @@ pub fn check(c: &Case, rec: &mut Rec) -> Result<(), String> {
                 r.hl = *addr;
                 r.af = 0;
                 mach::set_regs(&mut e, &r);
-                mach::single_step(&mut e)?;
+                mach::step_over(&mut e, 1)?;
                 let got = (mach::get_regs(&mut e).af >> 8) as u8;
                 let want = m.read(*addr);
                 rec.eval();
